@@ -633,12 +633,15 @@ AddSnaps(sn, news) ==
      IF k \in DOMAIN sn THEN sn[k] ELSE news[CHOOSE q \in 1..Len(news) : news[q].sid = k].content]
 
 (* connections closed by transport.dropNode in this step: gone at once on this side, in-flight data lost *)
-ExpAlive(n, x, al) == al \ {{n, d} : d \in x.dropped}
-ExpUp(n, x) == up \ {<<n, d>> : d \in x.dropped}
+(* (only connections this side has registered: an incoming one whose first message is still unread is not   *)
+(* known under the peer's name yet - it is refused when that message is read)                              *)
+DroppedUp(n, x) == {d \in x.dropped : <<n, d>> \in up}
+ExpAlive(n, x, al) == al \ {{n, d} : d \in DroppedUp(n, x)}
+ExpUp(n, x) == up \ {<<n, d>> : d \in DroppedUp(n, x)}
 ExpChan(n, x, ch, al) ==
   LET ch1 == Flush(ch, al, n, x.out) IN
   [i \in Nodes |-> [j \in Nodes |->
-     IF (i = n /\ j \in x.dropped) \/ (j = n /\ i \in x.dropped) THEN <<>> ELSE ch1[i][j]]]
+     IF (i = n /\ j \in DroppedUp(n, x)) \/ (j = n /\ i \in DroppedUp(n, x)) THEN <<>> ELSE ch1[i][j]]]
 
 Commit(n, x, ch, al) ==
   /\ node' = [node EXCEPT ![n] = x.s]
